@@ -115,8 +115,13 @@ SbOK(e) == /\ e.n00 + e.n01 + e.n10 + e.n11 = e.iters
            /\ e.op \in FenceOps => e.n00 = 0                  \* both loads missing both stores: forbidden by a full barrier
            /\ e.op \in FenceOps \cup {"none"}
 
+(* ---- compiler barrier: a plain counter polled under a lock made of the operation alone must be seen to reach its final value,
+        and no increment made under that lock may be lost ---- *)
+CbOK(e) == e.op \in FenceOps /\ e.done = 1 /\ e.final = e.expect
+
 ExperimentOK(e) ==
     CASE e.k = "sb"     -> SbOK(e)
+      [] e.k = "cb"     -> CbOK(e)
       [] e.k = "rmw"    -> ImageOK(e) /\ \A i \in 1..Len(e.locs) : RmwOK(e.op, e.locs[i], e.iters)
       [] e.k = "big"    -> ImageOK(e) /\ \A i \in 1..Len(e.locs) : BigOK(e.op, e.w, e.locs[i], e.iters)
       [] e.k = "void"   -> ImageOK(e) /\ \A i \in 1..Len(e.locs) : VoidOK(e.op, e.locs[i], e.iters)
